@@ -16,6 +16,7 @@ structure Cfg where
   narrowExtra : Nat → Nat    -- slack added to the narrowed table (from `needed`)
   narrowMul : Nat            -- multiplier of the random part when narrowing (2 | 1)
   bigMod : Nat → Nat         -- modulus of the random part when the plain table grows
+  growExtra : Nat → Nat      -- slack added when a full table is regrown (0 | cap / 8)
   cab : Nat → Nat            -- `compute_array_bits`
 
 def log2 := TinyC.log2
@@ -26,7 +27,7 @@ def cfg64 : Cfg :=
     denseGrow := fun e => 1 + (e >>> 6) + (e >>> 6) / 4,
     sparseCap := fun sz => 2 * (sz + 1),
     roomShift := none, narrowExtra := fun _ => 0, narrowMul := 2,
-    bigMod := fun cap => 2 * cap,
+    bigMod := fun cap => 2 * cap, growExtra := fun _ => 0,
     cab := fun mx => if log2 mx < 2 then 62 else if log2 mx > 62 then 0 else 64 - log2 mx }
 
 def cfg32 : Cfg :=
@@ -35,7 +36,7 @@ def cfg32 : Cfg :=
     denseGrow := fun e => 1 + e / 32 + e / 128,
     sparseCap := fun sz => 1 + 2 * sz,
     roomShift := some 4, narrowExtra := fun needed => needed / 8, narrowMul := 1,
-    bigMod := fun cap => cap,
+    bigMod := fun cap => cap, growExtra := fun cap => cap / 8,
     cab := fun mx => if log2 mx < 2 then 62 else if log2 mx > 62 then 0 else 32 - log2 mx }
 
 /-- the library's random source: any state type, any function -/
@@ -170,7 +171,7 @@ def insertPlain (sz cap bits : Nat) (a : Tbl) (e : Nat) : M D (Rp × Bool) := do
     | some a' => pure (.heap (sz + 1) cap bits a', true)
     | none => do
       let r ← drawM c g cap bits
-      let newcap := cap + 1 + (r % c.bigMod cap)
+      let newcap := cap + 1 + c.growExtra cap + (r % c.bigMod cap)
       let na : Tbl := Array.replicate newcap 0
       let na ← (a.toList.filter (· ≠ 0)).foldlM (fun t v => placeRaw v t) na
       let na ← placeRaw e' na
@@ -203,7 +204,7 @@ def insertBitmap (rec : Ins D) (sz cap bits : Nat) (a : Tbl) (e : Nat) : M D (Rp
           rebuild c rec (denseWithMax c mx) (.heap sz cap bits a) e
         else do
           let r ← drawM c g cap bits
-          let new ← withCapBits c g (cap + 1 + (r % cap)) bits
+          let new ← withCapBits c g (cap + 1 + c.growExtra cap + (r % cap)) bits
           rebuild c rec new (.heap sz cap bits a) e
 
 def insertStep (rec : Ins D) : Ins D
